@@ -1,4 +1,4 @@
-import DimodProofs.CqmLiftViews
+import DimodProofs.CqmLiftMore
 
 /-! # C05 — a CQM keeps every expression attached to the right variables
 
@@ -370,10 +370,181 @@ theorem refinement_hypotheses_hold (ops : List Cqm.Op) (hops : ∀ op ∈ ops, O
     ∧ AllExprs ExprKS (({} : Cqm).run ops) ∧ AllExprs ExprSorted (({} : Cqm).run ops) :=
   ⟨history_inv ops hops, history_labels ops, history_keysym ops hops, history_sorted ops hops⟩
 
-/-! **Not lifted** (index-level statements + harness only): building from a *model* (`set_objective(model)`,
-`add_constraint(model | comparison)`, the discrete forms — `copy_eq_move` / `model_terms_carried` are on indices),
-`remove_constraint(cascade=True)`, soft `add_constraint(iterable, weight=…)`, `spin_to_binary` (an iteration of
-`change_vartype` steps), the bounds setters, and the polynomial part of the copying `fix_variables` (C03). -/
+/-! ## building from models, at label level
+
+`LPoly.ofModel mi` is the handed-over model's polynomial keyed by its own labels (its variables in its order, `linOf`,
+`quadOf`, its offset).  `LCqm.addMissing s mi` appends the model's variables the CQM does not have, in the model's order,
+with the model's type and bounds; `LCqm.conflicts s mi` says that a variable of the model exists in the CQM with another
+type or other bounds.  `ModelInOK` / `ModelNoSelf`: distinct labels, one bias and one type per variable, terms between the
+model's own variables, no self-loop on a BINARY / SPIN variable — true of every BQM / QM. -/
+
+/-- **The expression a model becomes is the model's polynomial keyed by its labels** — on the copy path
+    (`add_linear` / `add_quadratic` / `add_offset` term by term) and on the move path (base object taken over +
+    `relabel_variables(mapping)`) alike.  (`copy_eq_move`, `model_terms_carried` are the index-level halves.) -/
+theorem model_is_its_polynomial (m : Cqm) (hwf : CqmWF m) (hl : CqmLabelsOK m) (mi : Cqm.ModelIn) (hmi : ModelInOK mi)
+    (hself : ModelNoSelf mi) (hc : m.conflicts mi = false) :
+    absExpr (m.addMissing mi).labels (Cqm.buildCopy (m.addMissing mi).vt ((m.addMissing mi).mapping mi) mi) = LPoly.ofModel mi
+    ∧ absExpr (m.addMissing mi).labels (Cqm.buildMove ((m.addMissing mi).mapping mi) mi) = LPoly.ofModel mi
+    ∧ (∀ i, i < mi.vars.length → (LPoly.ofModel mi).lin (mi.vars.getD i dl) = mi.lin.getD i 0) :=
+  ⟨(absExpr_build hwf hl hmi hself hc).1, (absExpr_build hwf hl hmi hself hc).2, fun _ hi => ofModel_lin_at hmi hi⟩
+
+/-- The variables a model brings along: when nothing conflicts, afterwards every variable of the model is a variable of the
+    CQM **with the model's type and bounds**, the CQM's own variables keep theirs (and stay), objective and constraints are
+    untouched. -/
+theorem model_variables_added (m : Cqm) (hwf : CqmWF m) (mi : Cqm.ModelIn) (hmi : ModelInOK mi) (hc : (absCqm m).conflicts mi = false) :
+    absCqm (m.addMissing mi) = (absCqm m).addMissing mi
+    ∧ (∀ i, i < mi.vars.length → ((absCqm m).addMissing mi).info (mi.vars.getD i dl) = some (mi.info.getD i (.binary, 0, 0))
+        ∧ mi.vars.getD i dl ∈ ((absCqm m).addMissing mi).labels)
+    ∧ (∀ x, x ∈ (absCqm m).labels → ((absCqm m).addMissing mi).info x = (absCqm m).info x ∧ x ∈ ((absCqm m).addMissing mi).labels)
+    ∧ ((absCqm m).addMissing mi).obj = (absCqm m).obj ∧ ((absCqm m).addMissing mi).cons = (absCqm m).cons := by
+  obtain ⟨a, b, c, d, _⟩ := addMissing_spec (infoDom_abs m) hmi hc
+  exact ⟨absCqm_addMissing hwf mi, a, b, c, d⟩
+
+/-- **`set_objective(model)`, `add_constraint(model | comparison, …, copy, weight, penalty)`** when they return, and the
+    **compatibility check**: a model with a conflicting variable is rejected by both with *nothing changed*; otherwise the
+    missing variables are appended and the objective / the new last constraint *is the model's polynomial* (copied or moved),
+    with the sense, rhs, and — if `set_weight` accepts them (`LCqm.weightOK`) — weight and penalty type given. -/
+theorem cqm_step_refines_model (m m' : Cqm) (hwf : CqmWF m) (hl : CqmLabelsOK m) (mi : Cqm.ModelIn) (hmi : ModelInOK mi)
+    (hself : ModelNoSelf mi) :
+    ((absCqm m).conflicts mi = true →
+        m.step (.setObjectiveModel mi) = (m, some .value)
+        ∧ ∀ sense rhs label copy weight pen, m.step (.addConstraintModel mi sense rhs label copy weight pen) = (m, some .value))
+    ∧ (m.step (.setObjectiveModel mi) = (m', none) →
+        (absCqm m).conflicts mi = false ∧ absCqm m' = { (absCqm m).addMissing mi with obj := LPoly.ofModel mi })
+    ∧ (∀ sense rhs label copy weight pen, m.step (.addConstraintModel mi sense rhs label copy weight pen) = (m', none) →
+        label ∉ m.clabels ∧ (absCqm m).conflicts mi = false
+        ∧ (weight = none ∨ ((absCqm m).addMissing mi).weightOK (LPoly.ofModel mi) weight pen)
+        ∧ absCqm m' = { (absCqm m).addMissing mi with cons := ((absCqm m).addMissing mi).cons ++
+            [(label, { LCons.hard (LPoly.ofModel mi) sense rhs with
+                        weight := weight, quadPenalty := weight.isSome && decide (pen = 1) })] }) :=
+  ⟨conflict_rejected m mi, refines_setObjectiveModel hwf hl hmi hself,
+   fun sense rhs label copy weight pen h => refines_addConstraintModel hwf hl hmi hself sense rhs label copy weight pen h⟩
+
+/-- **The move path leaves the source empty.**  `Cqm.sourceAfter m op` is what is left of the Python model object handed
+    to a model-taking call (the driver prints it; the harness compares it with the real object): `set_objective` and
+    `copy=True` never touch it; with `copy=False` a call that returns has moved it — the source is `clear()`ed — and a call
+    rejected for a duplicate label or a conflicting variable leaves source and CQM as they were. -/
+theorem source_after_move (m m' : Cqm) (mi : Cqm.ModelIn) (sense : Sense) (rhs : Rat) (label : Label) (weight : Option Rat) (pen : Nat) :
+    m.sourceAfter (.setObjectiveModel mi) = some mi
+    ∧ m.sourceAfter (.addConstraintModel mi sense rhs label true weight pen) = some mi
+    ∧ (m.step (.addConstraintModel mi sense rhs label false weight pen) = (m', none) →
+        m.sourceAfter (.addConstraintModel mi sense rhs label false weight pen) = some Cqm.ModelIn.cleared)
+    ∧ ((label ∈ m.clabels ∨ m.conflicts mi = true) →
+        m.sourceAfter (.addConstraintModel mi sense rhs label false weight pen) = some mi
+        ∧ m.step (.addConstraintModel mi sense rhs label false weight pen) = (m, some .value)) := by
+  refine ⟨rfl, ?_, ?_, ?_⟩
+  · show some (m.sourceAfterAdd mi label true) = some mi
+    unfold Cqm.sourceAfterAdd; simp
+  · intro h
+    show some (m.sourceAfterAdd mi label false) = _
+    have h' : m.addConstraintModel mi sense rhs label false weight pen = (m', none) := h
+    unfold Cqm.addConstraintModel at h'
+    unfold Cqm.sourceAfterAdd
+    by_cases hlab : label ∈ m.clabels
+    · rw [if_pos hlab] at h'; cases (Prod.mk.inj h').2
+    · rw [if_neg hlab] at h'
+      by_cases hc : m.conflicts mi = true
+      · rw [if_pos hc] at h'; cases (Prod.mk.inj h').2
+      · simp [hlab, hc]
+  · intro h
+    refine ⟨?_, ?_⟩
+    · show some (m.sourceAfterAdd mi label false) = some mi
+      unfold Cqm.sourceAfterAdd
+      rcases h with h | h <;> simp [h]
+    · show m.addConstraintModel mi sense rhs label false weight pen = _
+      unfold Cqm.addConstraintModel
+      rcases h with h | h
+      · rw [if_pos h]
+      · split_ifs <;> rfl
+
+/-- **The `add_discrete` forms** when they return: `add_discrete(model)` needs a linear model with every bias 1 whose
+    variables are BINARY (in the CQM if known there, else in the model) and — with `check_overlaps` — in no discrete
+    constraint yet; `add_discrete(comparison)` needs `== 1`; `add_discrete(labels)` builds the bias-1 model over the distinct
+    labels.  The result is always `add_constraint(model == 1, label)` — the model's polynomial — **with the discrete mark**. -/
+theorem cqm_step_refines_discrete (m m' : Cqm) (hwf : CqmWF m) (hl : CqmLabelsOK m) :
+    (∀ (mi : Cqm.ModelIn), ModelInOK mi → ∀ label copy chk, m.step (.addDiscreteModel mi label copy chk) = (m', none) →
+        mi.quad = []
+        ∧ (∀ p ∈ (mi.vars.zip mi.info).zip mi.lin, p.2 = 1
+            ∧ (match m.idx? p.1.1 with
+               | some g => m.vt.getD g .binary = .binary ∧ (chk = true → m.inDiscrete g = false)
+               | none => p.1.2.1 = .binary))
+        ∧ label ∉ m.clabels ∧ (absCqm m).conflicts mi = false
+        ∧ absCqm m' = { (absCqm m).addMissing mi with cons := ((absCqm m).addMissing mi).cons ++
+            [(label, { LCons.hard (LPoly.ofModel mi) .eq 1 with discrete := true })] })
+    ∧ (∀ (mi : Cqm.ModelIn) sense rhs label copy chk, m.step (.addDiscreteComparison mi sense rhs label copy chk) = (m', none) →
+        sense = .eq ∧ rhs = 1 ∧ m.step (.addDiscreteModel mi label copy chk) = (m', none))
+    ∧ (∀ vs label chk, m.step (.addDiscreteVars vs label chk) = (m', none) →
+        (∀ v ∈ vs, ∀ g, m.idx? v = some g → m.vt.getD g .binary = .binary ∧ (chk = true → m.inDiscrete g = false))
+        ∧ label ∉ m.clabels ∧ (absCqm m).conflicts (Cqm.discreteModelOf vs) = false
+        ∧ absCqm m' = { (absCqm m).addMissing (Cqm.discreteModelOf vs) with
+            cons := ((absCqm m).addMissing (Cqm.discreteModelOf vs)).cons ++
+              [(label, { LCons.hard (LPoly.ofModel (Cqm.discreteModelOf vs)) .eq 1 with discrete := true })] }) :=
+  ⟨fun _ hmi label copy chk h => refines_addDiscreteModel hwf hl hmi label copy chk h,
+   fun mi sense rhs label copy chk h => refines_addDiscreteComparison mi sense rhs label copy chk h,
+   fun vs label chk h => refines_addDiscreteVars hwf hl vs label chk h⟩
+
+/-! ## soft constraints, `set_weight`, bounds, `spin_to_binary`, cascading removal -/
+
+/-- **Soft constraints from an iterable, and what `set_weight` accepts.**  `add_constraint(iterable, sense, rhs, label,
+    weight, penalty)` returns with the new last constraint carrying the sum of the terms, the weight and the penalty type,
+    provided `LCqm.weightOK`: weight positive; penalty `'linear'`, or `'quadratic'` **with every variable of the constraint
+    BINARY or SPIN in the parent model** (the code looks the parent's type up by the constraint's variable indices —
+    `Cqm.setWeight`, `setWeight_spec`).  `constraints[l].lhs.set_weight(weight, penalty)` returns iff `l` is a constraint
+    and `weightOK` holds for its polynomial; otherwise the model is unchanged (an unknown label is a `KeyError`).
+    When `add_constraint(…, weight=…)` is rejected by that check, the constraint is nevertheless already in the model, as
+    a hard one (`pushCons_spec`, known finding D34a). -/
+theorem cqm_step_refines_soft (m m' : Cqm) (hwf : CqmWF m) (hl : CqmLabelsOK m) :
+    (∀ ts sense rhs label weight pen, m.step (.addConstraintTerms ts sense rhs label weight pen) = (m', none) →
+        label ∉ m.clabels
+        ∧ (weight = none ∨ (absCqm m).weightOK (ts.foldl (LPoly.addTerm (absCqm m).vtOf) LPoly.empty) weight pen)
+        ∧ absCqm m' = { absCqm m with cons := (absCqm m).cons ++
+            [(label, { LCons.hard (ts.foldl (LPoly.addTerm (absCqm m).vtOf) LPoly.empty) sense rhs with
+                        weight := weight, quadPenalty := weight.isSome && decide (pen = 1) })] })
+    ∧ (∀ l weight pen,
+        ((m.step (.viewSetWeight l weight pen)).2 = none ↔ ∃ c, (absCqm m).consOf l = some c ∧ (absCqm m).weightOK c.p weight pen)
+        ∧ ((m.step (.viewSetWeight l weight pen)).2 ≠ none → (m.step (.viewSetWeight l weight pen)).1 = m)
+        ∧ ((absCqm m).consOf l = none → (m.step (.viewSetWeight l weight pen)).2 = some .index)) :=
+  ⟨fun ts sense rhs label weight pen h => refines_addConstraintTermsW hwf hl ts sense rhs label weight pen h,
+   fun l weight pen => viewSetWeight_accepts hwf hl l weight pen⟩
+
+/-- **`set_lower_bound` / `set_upper_bound`** when they return: the variable is INTEGER or REAL, the new bound is within the
+    type's limits and on the right side of the other bound (for INTEGER an integer still fits: ⌈lb⌉ ≤ ⌊ub⌋), and only that
+    bound of that variable changes. -/
+theorem cqm_step_refines_bounds (m m' : Cqm) (hwf : CqmWF m) (hl : CqmLabelsOK m) (v : Label) (x : Rat) :
+    (m.step (.setLowerBound v x) = (m', none) →
+      ∃ vt lb ub, (absCqm m).info v = some (vt, lb, ub) ∧ vt ≠ .binary ∧ vt ≠ .spin ∧ vt.min ≤ x ∧ x ≤ ub
+        ∧ (vt = .integer → x.ceil ≤ ub.floor) ∧ absCqm m' = (absCqm m).setInfo v (vt, x, ub))
+    ∧ (m.step (.setUpperBound v x) = (m', none) →
+      ∃ vt lb ub, (absCqm m).info v = some (vt, lb, ub) ∧ vt ≠ .binary ∧ vt ≠ .spin ∧ x ≤ vt.max ∧ lb ≤ x
+        ∧ (vt = .integer → lb.ceil ≤ x.floor) ∧ absCqm m' = (absCqm m).setInfo v (vt, lb, x)) :=
+  ⟨refines_setLowerBound hwf hl v x, refines_setUpperBound hwf hl v x⟩
+
+/-- **`spin_to_binary(inplace=True)`**: in model order, every SPIN variable becomes BINARY (type, bounds [0, 1]) with
+    `s = 2x − 1` substituted in the objective and in every constraint; the other variables are left alone. -/
+theorem spin_to_binary_refines (m m' : Cqm) (hwf : CqmWF m) (hl : CqmLabelsOK m) (hk : AllExprs ExprKS m)
+    (hs : AllExprs ExprSorted m) (h : m.step .spinToBinary = (m', none)) :
+    absCqm m' = (absCqm m).labels.foldl LCqm.spinToBinaryAt (absCqm m) :=
+  refines_spinToBinary ⟨hwf, hl, hk, hs⟩ h
+
+/-- **`remove_constraint(label, cascade=True)`** when it returns: the constraint goes, and with it **exactly** the
+    variables of `LCqm.cascadeLabels`: those variables of the removed constraint that the objective does not use and that
+    no *other* constraint uses (every other constraint is looked at — a loop that stopped at the first one would remove
+    too much), each removed as `remove_variable` does; everything else stays. -/
+theorem cascade_refines (m m' : Cqm) (hwf : CqmWF m) (hl : CqmLabelsOK m) (label : Label)
+    (h : m.step (.removeConstraint label true) = (m', none)) :
+    absCqm m' = ((absCqm m).cascadeLabels label).foldl LCqm.removeVariable
+      { absCqm m with cons := (absCqm m).cons.filter (fun p => p.1 ≠ label) }
+    ∧ ∀ c, (absCqm m).consOf label = some c → (absCqm m).cascadeLabels label
+        = c.p.vars.filter fun l => decide (l ∉ (absCqm m).obj.vars)
+            && !((absCqm m).cons.any fun q => decide (q.1 ≠ label) && decide (l ∈ q.2.p.vars)) := by
+  refine ⟨refines_removeConstraintCascade hwf hl label h, ?_⟩
+  intro c hc
+  unfold LCqm.cascadeLabels; rw [hc]
+
+/-! Every public mutation of `Cqm.Op` now has a label-level statement.  What stays at index level: the private variable
+*order* inside an expression built by the move path (`copy_eq_move`), the overlap test of `add_discrete` (`inDiscrete`, i.e.
+`is_onehot`, depends on the stored adjacency, which a polynomial does not show), and the polynomial part of the copying
+`fix_variables` (C03). -/
 
 /-! ## non-vacuity: a concrete history on the executable model -/
 
@@ -409,6 +580,23 @@ example : (match demo.fixVariablesCopy [(.str "x", 1)] with
                  && decide (m'.cons.map (fun c => (c.rhs, c.weight, c.quadPenalty, c.discrete)) = [(1, none, false, false)])
                  && (m'.cons.map (fun c => match c.sense with | .le => true | _ => false) == [true])
     | none => false) = true := by
+  decide +kernel
+
+/-- a handed-over model `2 i + 3 i·x + 3/2` (x BINARY, i INTEGER in [0, 5]) -/
+def demoModel : Cqm.ModelIn :=
+  { vars := [.str "i", .str "x"], info := [(.integer, 0, 5), (.binary, 0, 1)], lin := [2, 0], quad := [(1, 0, 3)], off := 3/2 }
+
+/-- the round-4 statements are not vacuous either: these calls return on `demo`, the moved source is cleared, a conflicting
+    model (i BINARY) is rejected, the cascade takes exactly `i` (x is used by the objective) -/
+example : (demo.step (.addConstraintModel demoModel .le 1 (.str "m") false (some 2) 0)).2 = none
+    ∧ (demo.step (.setObjectiveModel demoModel)).2 = none
+    ∧ (demo.sourceAfter (.addConstraintModel demoModel .le 1 (.str "m") false none 0)).map (·.vars.length) = some 0
+    ∧ (demo.step (.setObjectiveModel { demoModel with info := [(.binary, 0, 1), (.binary, 0, 1)] })).2 = some .value
+    ∧ (demo.step (.addDiscreteVars [.str "x", .str "y", .str "x"] (.str "d") true)).2 = none
+    ∧ (demo.step (.setLowerBound (.str "i") 1)).2 = none
+    ∧ (demo.step (.viewSetWeight (.str "c") (some 2) 1)).2 = some .value      -- i is INTEGER: no quadratic penalty
+    ∧ ((demo.run [.setObjectiveTerms [⟨[.str "x", .str "y"], 1⟩]]).step (.removeConstraint (.str "c") true)).1.labels
+        = [.str "x", .str "y"] := by
   decide +kernel
 
 end C05
